@@ -613,7 +613,7 @@ impl Scenario for Sched {
         // start of the data (system ID, from the main thread's forwarder) and what the analysis reports about the
         // selected packets (layers and staves, errors) reach the collector from two threads in either order
         let mut filter = Filter::None;
-        if case % 4 == 1 && st.links.len() >= 2 {
+        if case % 4 == 1 && case % 6 != 5 && st.links.len() >= 2 {
             let first_link = st.order[0].0;
             let others: Vec<usize> = (0..st.links.len()).filter(|&l| l != first_link && !st.links[l].packets.is_empty()).collect();
             if !others.is_empty() {
